@@ -60,7 +60,20 @@ func (x *Exec) doCall(st *State, fr *Frame, in ssa.Instruction, call *ssa.CallCo
 		st.calls = map[string]int{}
 	}
 	x.callSiteObligations(st, fr, in, call, args)
-	st.calls[calleeName(call)]++
+	cname := calleeName(call)
+	st.calls[cname]++
+	{
+		k0 := k
+		k = func(s2 *State, o Outcome) {
+			if !o.Panic && len(o.Vals) > 0 {
+				if s2.lastRes == nil {
+					s2.lastRes = map[string]Val{}
+				}
+				s2.lastRes[cname] = o.Vals[0]
+			}
+			k0(s2, o)
+		}
+	}
 	if b, ok := call.Value.(*ssa.Builtin); ok && !call.IsInvoke() {
 		x.builtin(st, fr, in, b, call, args, k)
 		return
